@@ -54,7 +54,7 @@ pub fn run_prog(prog: &Path, args: &[String], cwd: &Path, timeout_s: u64) -> Pro
         .env("RUST_BACKTRACE", "0");
     unsafe {
         cmd.pre_exec(|| {
-            let fs = libc::rlimit { rlim_cur: 512 << 20, rlim_max: 512 << 20 };
+            let fs = libc::rlimit { rlim_cur: 256 << 20, rlim_max: 256 << 20 };
             libc::setrlimit(libc::RLIMIT_FSIZE, &fs);
             let asl = libc::rlimit { rlim_cur: 8 << 30, rlim_max: 8 << 30 };
             libc::setrlimit(libc::RLIMIT_AS, &asl);
@@ -123,6 +123,8 @@ pub enum CliCase {
     MackayNeal { conf: MnConfig, seed: u64, search: Option<u64> },
     Systematic { alist: String },
     Encode { alist: String, punct: Option<String>, input: Vec<u8>, fifo_chunks: Option<Vec<usize>> },
+    /// encode with the output on a full device (every write fails with ENOSPC)
+    EncodeFull { alist: String, input: Vec<u8> },
     BadFile { sub: String, fault: FileFault, alist: String },
     BadArg { args: Vec<String> },
     Ber { alist: String, args: Vec<String>, workers: usize, strategy: String, clock: String, seeds: [u64; 3], expect_err: bool },
@@ -143,6 +145,7 @@ impl CliCase {
             CliCase::MackayNeal { conf, seed, search } => json!({"kind": "mackay-neal", "conf": mn_json(conf), "seed": seed.to_string(), "search": search}),
             CliCase::Systematic { alist } => json!({"kind": "systematic", "alist": alist}),
             CliCase::Encode { alist, punct, input, fifo_chunks } => json!({"kind": "encode", "alist": alist, "puncturing": punct, "input": input, "fifo_chunks": fifo_chunks}),
+            CliCase::EncodeFull { alist, input } => json!({"kind": "encode-full", "alist": alist, "input": input}),
             CliCase::BadFile { sub, fault, alist } => json!({"kind": "bad-file", "sub": sub, "fault": format!("{:?}", fault), "alist": alist}),
             CliCase::BadArg { args } => json!({"kind": "bad-arg", "args": args}),
             CliCase::Ber { alist, args, workers, strategy, clock, seeds, expect_err } => json!({"kind": "ber", "alist": alist, "args": args, "workers": workers, "strategy": strategy, "clock": clock,
@@ -181,6 +184,7 @@ impl CliCase {
                 input: v["input"].as_array()?.iter().map(|x| x.as_u64().unwrap_or(0) as u8).collect(),
                 fifo_chunks: v["fifo_chunks"].as_array().map(|a| a.iter().map(|x| x.as_u64().unwrap_or(1) as usize).collect()),
             },
+            "encode-full" => CliCase::EncodeFull { alist: s("alist")?, input: v["input"].as_array()?.iter().map(|x| x.as_u64().unwrap_or(0) as u8).collect() },
             "bad-file" => {
                 let f = s("fault")?;
                 let fault = if f == "Missing" {
@@ -595,7 +599,7 @@ fn eval_in(case: &CliCase, stats: &mut Counters, bin: &Path, dir: &Path) -> Opti
                     }))
                 }
             };
-            let out = run_prog(bin, &args, dir, 60);
+            let out = run_prog(bin, &args, dir, 20);
             if let Some(w) = writer {
                 // the tool has exited: open the read side ourselves (non-blocking) so that a writer
                 // still blocked in open() or write() gets through, whatever the tool did
@@ -645,6 +649,24 @@ fn eval_in(case: &CliCase, stats: &mut Counters, bin: &Path, dir: &Path) -> Opti
                 ));
             }
             None
+        }
+        CliCase::EncodeFull { alist, input } => {
+            std::fs::write(dir.join("code.alist"), alist).ok()?;
+            std::fs::write(dir.join("in.bin"), input).ok()?;
+            if !Path::new("/dev/full").exists() {
+                stats.inc("skipped/no /dev/full on this system");
+                return None;
+            }
+            let h = SparseMatrix::from_alist(alist).ok()?;
+            let k = h.num_cols() - h.num_rows();
+            let out = run_prog(bin, &sv(&["encode", "code.alist", "in.bin", "/dev/full"]), dir, 60);
+            let what = format!("encode of {} complete words to a full device", input.len() / k.max(1));
+            if k == 0 || input.len() < k {
+                return expect_ok_exit(&out, &what);
+            }
+            stats.inc("faults_fired/ENOSPC on every write of the output (/dev/full)");
+            // codewords could not be written: success must not be claimed
+            expect_error_exit(&out, &what)
         }
         CliCase::BadFile { sub, fault, alist } => {
             let name = "bad.alist";
@@ -1132,6 +1154,9 @@ fn gen_sampled(seed: u64, i: u64) -> CliCase {
             };
             let len = g.below(3 * k as u64 + 3) as usize;
             let input: Vec<u8> = (0..len).map(|_| g.below(2) as u8).collect();
+            if g.chance(1, 12) {
+                return CliCase::EncodeFull { alist: m.to_alist(), input };
+            }
             let fifo_chunks = if g.chance(1, 3) { Some((0..4).map(|_| 1 + g.below(k as u64 + 2) as usize).collect()) } else { None };
             CliCase::Encode { alist: m.to_alist(), punct, input, fifo_chunks }
         }
@@ -1204,14 +1229,16 @@ fn gen_ber(g: &mut Stream) -> CliCase {
     let step = *g.pick(&[0.5, 1.0, 0.3, 0.25]);
     let np = 1.0 + g.below(3) as f64;
     let max = min + step * (np - 1.0) + *g.pick(&[0.0, 0.1, 0.2]);
+    // 0 = fault-free; 1 pattern length, 2 interleaver columns, 3 8PSK symbol size do not fit;
+    // 4 malformed pattern; 5 result file on a full device
+    let fault = if g.chance(20, 100) { 1 + g.below(5) } else { 0 };
     // "--opt=value" form: clap would take a separate negative number for a flag
     let mut args: Vec<String> = vec!["ber".into(), format!("--min-ebn0={}", min), format!("--max-ebn0={}", max), format!("--step-ebn0={}", step)];
     args.extend(["--frame-errors".to_string(), g.pick(&[1u64, 2, 3, 5, 10]).to_string()]);
     args.extend(["--max-iter".to_string(), g.pick(&[1usize, 3, 10]).to_string()]);
     args.extend(["--decoder".to_string(), g.pick(&names).clone()]);
-    args.extend(["--output-file".to_string(), "out.txt".to_string()]);
+    args.extend(["--output-file".to_string(), if fault == 5 { "/dev/full".to_string() } else { "out.txt".to_string() }]);
     let mut l = n;
-    let fault = if g.chance(18, 100) { 1 + g.below(4) } else { 0 };
     if fault == 1 {
         // a pattern whose length does not divide the codeword
         let nd: Vec<usize> = (2..=n + 2).filter(|p| n % p != 0).collect();
@@ -1315,6 +1342,7 @@ fn case_label(c: &CliCase) -> &'static str {
         CliCase::MackayNeal { .. } => "mackay-neal",
         CliCase::Systematic { .. } => "systematic",
         CliCase::Encode { .. } => "encode",
+        CliCase::EncodeFull { .. } => "encode",
         CliCase::BadFile { .. } => "file-fault",
         CliCase::BadArg { .. } => "bad-arg",
         CliCase::Ber { .. } => "ber",
